@@ -68,6 +68,10 @@ func (hash *Hash) WriteAny(data ...interface{}) error {
 	var sizeBuf [8]byte
 	var toBeWritten BytesWithDomain
 	for _, d := range data {
+		// a nil pointer (for example a missing number in a proof received from the network) cannot be hashed
+		if v := reflect.ValueOf(d); d == nil || (v.Kind() == reflect.Ptr && v.IsNil()) {
+			return errors.New("hash.WriteAny: nil value")
+		}
 		switch t := d.(type) {
 		case []byte:
 			if t == nil {
